@@ -63,8 +63,10 @@ LEVEL_TEXT = ("Seeded shapes (all families, 4 kinds, C implementation) x "
               "contents and keep working (the failed leaf is grown again), "
               "references must balance; also on STORED containers whose "
               "nodes are (partly) ghosts, where the allocations of the node "
-              "loads the operation triggers fail too; run on the plain and "
-              "on the ASan+UBSan build.")
+              "loads the operation triggers fail too, with a reference "
+              "ledger of the tree's NODES (none released once too often by "
+              "an error exit); run on the plain and on the ASan+UBSan "
+              "build.")
 LEVEL = {"quick": "fault_enumeration", "thorough": "fault_enumeration"}
 ASSUMPTIONS = ["allocation failures are injected at BTree_Malloc / "
                "BTree_Realloc (the wrappers the property anchors) and at the "
